@@ -369,6 +369,55 @@ def r_commit_order(ctx):
             n = len([e for e in p.events if is_hdr_write(e)])
             if n != 1:
                 obs.append(Ob("R-HDR-LAST", fn, "header written exactly once on every success path", False, "found %d header writes" % n, rel(f["loc"])))
+    obs += _forwarded_stream(ctx, wp)
+    return obs
+
+
+def _forwarded_stream(ctx, wp):
+    """the ordering established inside the archive writer is the ordering the caller's stream sees: every local caller hands its own
+    stream parameter to the writer and has no other write effect on it (a staging buffer copied out afterwards puts the header first)"""
+    obs = []
+    work = []
+    for f, fa, oks in wp:
+        if fa is None or not oks:
+            continue
+        w = WriterPath(ctx, fa, oks[0])
+        if not w.ok:
+            continue
+        idx = [i for i, n in enumerate(fa.param_names) if fa.params.get(n) == w.S]
+        if idx:
+            work.append((f["path"], idx[0]))
+    seen = set()
+    while work:
+        callee, sidx = work.pop()
+        if (callee, sidx) in seen:
+            continue
+        seen.add((callee, sidx))
+        for g in ctx.user_fns():
+            if g["path"] == callee or not any(c["fn"] == callee for c in calls(g["body"])):
+                continue
+            try:
+                ga = ctx.fa(g)
+            except PathExplosion:
+                obs.append(Ob("R-HDR-LAST", g["path"], "caller of the archive writer", False, "path explosion", rel(g["loc"])))
+                continue
+            gn = g["path"]
+            for p in ga.paths:
+                cs = [e for e in p.events if e.kind == "call" and e.d["fn"] == callee and not e.d.get("inl")]
+                for e in cs:
+                    nodes = e.d.get("arg_nodes") or []
+                    S = ga.root_var(nodes[sidx]) if sidx < len(nodes) else None
+                    pn = [n for n in ga.param_names if ga.params.get(n) == S] if S is not None else []
+                    obs.append(Ob("R-HDR-LAST", gn, "the caller's own stream is handed to the archive writer", bool(pn),
+                                  "stream argument of %s is %s" % (callee.rpartition("::")[2], ("parameter `%s`" % pn[0]) if pn else "not a parameter of the caller (a staged copy reaches the caller's stream in a different order)"), e.loc(), only=("C17",)))
+                    if not pn:
+                        continue
+                    # events evaluated in place inside the callee belong to the call itself (the callee is examined as a caller in its own right)
+                    other = [x for x in p.events if x.kind == "call" and x is not e and not (e.d.get("inlined") and callee in (x.d.get("inl") or ()))
+                             and any(S in ks and k != "pos" for k, ks in x.d.get("effects", ()))]
+                    obs.append(Ob("R-HDR-LAST", gn, "no other effect on the stream around the archive writer", not other,
+                                  "other effects on `%s`: %s" % (pn[0], ", ".join(short_fn(x) for x in other) or "none"), e.loc(), only=("C17",)))
+                    work.append((gn, ga.param_names.index(pn[0])))
     return obs
 
 
